@@ -10,6 +10,15 @@
 //     (`driver parstream` / `driver pariter`, state-set conformance) and checked by the monitors.
 //   - timed: virtual latencies for the source, f and the consumer; monitors only (up to 10^4 items,
 //     parallelism up to 64).
+//
+// The source's Close is not instantaneous in a part of the scenarios (script: it is gated like every
+// other call, step "sclose" lets it return; timed: it sleeps src_close_lat ms of virtual time), and
+// "the source has been closed" is evaluated at the instant MapStream's Close returns: the source's
+// Close must have *returned* by then (order of the two return events, virtual timestamps in the
+// message). The script source blocks in Next until it is given something or its context is done (an
+// idle network source); a timed source with src_idle does the same after its n items. Once a call of
+// f or the source has failed, a pending Next is no longer excused by the source being idle: with
+// nothing of f outstanding it must have returned the error at quiescence ("never silence").
 package c14
 
 import (
@@ -36,7 +45,7 @@ import (
 // scenarios
 
 type Step struct {
-	Op string `json:"op"` // next | nextx | expire | close | pcancel | item | end | serr | fok | ferr
+	Op string `json:"op"` // next | nextx | expire | close | pcancel | item | end | serr | sclose | fok | ferr
 	I  int    `json:"i,omitempty"`
 	V  int    `json:"v,omitempty"`
 }
@@ -48,6 +57,8 @@ type Scenario struct {
 	B       int    `json:"b"`
 	Gmp     int    `json:"gmp"`
 	Steps   []Step `json:"steps,omitempty"`
+	// script: the source's Close is gated (released by step "sclose") instead of returning at once
+	SlowClose bool `json:"slow_close,omitempty"`
 	// timed
 	N            int    `json:"n,omitempty"`
 	SrcErrAt     int    `json:"src_err_at,omitempty"` // position+1 at which the source fails (0 = never)
@@ -60,6 +71,12 @@ type Scenario struct {
 	ConsTimeout  int    `json:"cons_timeout,omitempty"`
 	CloseAfter   int    `json:"close_after,omitempty"` // 0 = read to the end, k = Close after k-1 results
 	ParentCancel int    `json:"parent_cancel,omitempty"`
+	SrcCloseLat  int    `json:"src_close_lat,omitempty"` // the source's Close takes this many ms of virtual time
+	SrcIdle      bool   `json:"src_idle,omitempty"`      // after its n items the source blocks in Next until its context is done
+	// who owns the MapStream: "" = the consumer itself; "map" = a stream.Map wrapper (identity) whose Next /
+	// Close the consumer calls; "collect" = the reducer stream.Collect, which must have closed everything
+	// by the time it returns (the C09 clause for the other owners reachable from here)
+	Owner string `json:"owner,omitempty"`
 }
 
 func (sc *Scenario) key() string {
@@ -157,11 +174,18 @@ type env struct {
 	srcLog    []byte
 	srcInCall int
 	srcGate   chan gateRes
-	srcClosed int
-	items     []int // values handed out by the source
-	srcFailed error
-	srcEnded  bool
-	srcPos    int
+	srcClosed int // calls of the source's Close that have returned
+	// the source's Close: calls begun, in progress, the gate of the pending one (script, slow_close),
+	// virtual instants (since the start of the scenario) of its return and of MapStream's Close return
+	srcCloseBegun  int
+	srcInClose     int
+	srcCloseGate   chan struct{}
+	start          time.Time
+	srcCloseDoneAt time.Duration
+	items          []int // values handed out by the source
+	srcFailed      error
+	srcEnded       bool
+	srcPos         int
 	// f
 	calls    []*fcall
 	gauge    int
@@ -177,6 +201,8 @@ type env struct {
 	viols       []Viol
 	reqPar      int
 	bound       int
+	abandon     bool // the scenario is being abandoned with goroutines blocked for good
+	rescued     bool // the scenario closed the stream itself to free a stuck call: what that call returns is not evidence
 }
 
 func (e *env) viol(kind, what string, params map[string]interface{}) {
@@ -215,10 +241,10 @@ func (s *srcStream) Next(ctx context.Context) (int, error) {
 	e := s.e
 	e.mu.Lock()
 	e.srcLog = append(e.srcLog, 'N')
-	if e.srcInCall > 0 {
+	if e.srcInCall > 0 || e.srcInClose > 0 {
 		e.viol("c09-concurrent", "Next called on the source while another call on it is in progress", nil)
 	}
-	if e.srcClosed > 0 {
+	if e.srcCloseBegun > 0 {
 		e.viol("c09-next-after-close", "Next called on the source after Close", nil)
 	}
 	e.srcInCall++
@@ -235,7 +261,11 @@ func (s *srcStream) Next(ctx context.Context) (int, error) {
 		}
 	} else {
 		r = e.timedSrc(pos)
-		if e.sc.SrcLat > 0 {
+		if e.sc.SrcIdle && pos >= e.sc.N && r.end {
+			// an idle source: nothing more to yield for now, neither ended nor failed
+			<-ctx.Done()
+			r = gateRes{err: ctx.Err()}
+		} else if e.sc.SrcLat > 0 {
 			t := time.NewTimer(time.Duration(e.sc.SrcLat) * time.Millisecond)
 			select {
 			case <-t.C:
@@ -272,15 +302,33 @@ func (s *srcStream) Next(ctx context.Context) (int, error) {
 func (s *srcStream) Close() {
 	e := s.e
 	e.mu.Lock()
-	defer e.mu.Unlock()
 	e.srcLog = append(e.srcLog, 'C')
-	if e.srcInCall > 0 {
-		e.viol("c09-concurrent", "Close called on the source while a Next call on it is in progress", nil)
+	if e.srcInCall > 0 || e.srcInClose > 0 {
+		e.viol("c09-concurrent", "Close called on the source while another call on it is in progress", nil)
 	}
+	e.srcCloseBegun++
+	if e.srcCloseBegun > 1 {
+		e.viol("c09-close-count", fmt.Sprintf("the source was closed %d times", e.srcCloseBegun), nil)
+	}
+	e.srcInClose++
+	var gate chan struct{}
+	if e.sc.Kind == "script" && e.sc.SlowClose {
+		gate = make(chan struct{}, 1)
+		e.srcCloseGate = gate
+	}
+	e.mu.Unlock()
+	// a Close that is not instantaneous: gated (script) or a few ms of virtual time (timed)
+	if gate != nil {
+		<-gate
+	} else if e.sc.Kind == "timed" && e.sc.SrcCloseLat > 0 {
+		time.Sleep(time.Duration(e.sc.SrcCloseLat) * time.Millisecond)
+	}
+	e.mu.Lock()
+	defer e.mu.Unlock()
+	e.srcInClose--
+	e.srcCloseGate = nil
 	e.srcClosed++
-	if e.srcClosed > 1 {
-		e.viol("c09-close-count", fmt.Sprintf("the source was closed %d times", e.srcClosed), nil)
-	}
+	e.srcCloseDoneAt = time.Since(e.start)
 	e.srcLog = append(e.srcLog, 'c')
 }
 
@@ -442,7 +490,23 @@ func (e *env) observe() string {
 func (e *env) quiescentMonitors() {
 	e.mu.Lock()
 	defer e.mu.Unlock()
-	gated := len(e.outstandingF()) > 0 || e.srcInCall > 0
+	gated := len(e.outstandingF()) > 0 || e.srcInCall > 0 || e.srcInClose > 0
+	// "reports E itself - never silence": once a call of f or the source has failed, the source being
+	// idle (blocked in Next until it has data or its context is done) no longer excuses a pending Next;
+	// only calls of f that have not returned yet and a source Close in progress do.
+	if failed := e.failedNow(); failed != "" && e.cons == "next" && len(e.outstandingF()) == 0 && e.srcInClose == 0 {
+		src := "no call on the source is pending"
+		if e.srcInCall > 0 {
+			src = "the source is idle: blocked in Next until its context is done, which the library has not cancelled"
+		}
+		ctx := "live"
+		if e.curCtx != nil && e.curCtx.Err() != nil {
+			ctx = "expired"
+		}
+		what := fmt.Sprintf("%s, no call of f is outstanding, yet Next has not reported the error at quiescence (%s; the consumer's context is %s)", failed, src, ctx)
+		e.viol("error-silent", what, map[string]interface{}{"ctx": ctx, "source_idle": e.srcInCall > 0})
+		e.viol("c08-silence", what, map[string]interface{}{"ctx": ctx, "source_idle": e.srcInCall > 0})
+	}
 	if e.cons == "next" && !gated {
 		if e.curCtx != nil && e.curCtx.Err() != nil {
 			e.viol("deadlock", "Next has not returned although its context has expired and no call of f or of the source is pending", map[string]interface{}{"ctx": "expired"})
@@ -455,9 +519,24 @@ func (e *env) quiescentMonitors() {
 	}
 }
 
-// afterClose: evaluated by the consumer goroutine right when Close returns.
+// failedNow: "" or a description of the first failure that has happened so far (mu held).
+func (e *env) failedNow() string {
+	for _, c := range e.calls {
+		if c.ended && c.res.err != nil {
+			return fmt.Sprintf("f failed for item %d with %q", c.idx, c.res.err)
+		}
+	}
+	if e.srcFailed != nil {
+		return fmt.Sprintf("the source failed with %q", e.srcFailed)
+	}
+	return ""
+}
+
+// afterClose: evaluated by the consumer goroutine at the instant Close returns (no other goroutine
+// of the bubble can run in between: the call below follows st.Close() without blocking).
 func (e *env) afterClose() {
 	// mu held
+	now := time.Since(e.start)
 	if e.gauge > 0 {
 		e.viol("close-workers-running", fmt.Sprintf("Close returned while %d call(s) of f were still running", e.gauge), nil)
 	}
@@ -465,8 +544,15 @@ func (e *env) afterClose() {
 		e.viol("close-workers-running", "Close returned while a call on the source was still in progress", nil)
 	}
 	if e.srcClosed != 1 {
-		e.viol("close-source-not-closed", fmt.Sprintf("Close returned with the source closed %d times", e.srcClosed), nil)
-		e.viol("c09-close-count", fmt.Sprintf("the source was closed %d times by the time Close returned", e.srcClosed), nil)
+		state := "had not been called"
+		if e.srcInClose > 0 {
+			state = "was still in progress"
+		} else if e.srcCloseBegun > 0 {
+			state = fmt.Sprintf("had returned %d times (last at t=%v)", e.srcClosed, e.srcCloseDoneAt)
+		}
+		p := map[string]interface{}{"source_close_begun": e.srcCloseBegun, "source_close_returned": e.srcClosed}
+		e.viol("close-source-not-closed", fmt.Sprintf("Close returned at t=%v while the source's Close %s (begun %d, returned %d)", now, state, e.srcCloseBegun, e.srcClosed), p)
+		e.viol("c09-close-count", fmt.Sprintf("the source's Close %s when the owner's Close returned at t=%v (begun %d, returned %d; it must have returned exactly once by then)", state, now, e.srcCloseBegun, e.srcClosed), p)
 	}
 }
 
@@ -584,9 +670,11 @@ func (e *env) consumer(cmds chan cmd, st stream.Stream[int], it iterator.Iterato
 				}
 			}
 			e.mu.Lock()
-			e.results = append(e.results, nextRes{v: v, err: err, ctxDead: c.ctx != nil && c.ctx.Err() != nil})
-			if err == nil {
-				e.yielded++
+			if !e.rescued {
+				e.results = append(e.results, nextRes{v: v, err: err, ctxDead: c.ctx != nil && c.ctx.Err() != nil})
+				if err == nil {
+					e.yielded++
+				}
 			}
 			e.cons = "idle"
 			e.curCtx = nil
@@ -604,6 +692,34 @@ func (e *env) consumer(cmds chan cmd, st stream.Stream[int], it iterator.Iterato
 			if e.notify != nil {
 				e.notify <- struct{}{}
 			}
+		case "collect":
+			// the reducer owns the stream: it reads to the end or to the first error and has closed the stream
+			// (hence the source) by the time it returns
+			vals, err := stream.Collect(context.Background(), st)
+			e.mu.Lock()
+			if e.rescued {
+				e.cons = "closed"
+				e.mu.Unlock()
+				if e.notify != nil {
+					e.notify <- struct{}{}
+				}
+				continue
+			}
+			for _, v := range vals {
+				e.results = append(e.results, nextRes{v: v})
+				e.yielded++
+			}
+			if err == nil {
+				err = stream.End
+			}
+			e.results = append(e.results, nextRes{err: err})
+			e.closedRet = true
+			e.cons = "closed"
+			e.afterClose()
+			e.mu.Unlock()
+			if e.notify != nil {
+				e.notify <- struct{}{}
+			}
 		}
 	}
 }
@@ -611,20 +727,17 @@ func (e *env) consumer(cmds chan cmd, st stream.Stream[int], it iterator.Iterato
 // ---------------------------------------------------------------------------------------------
 // running one scenario
 
-// fatalHook is called inside the bubble when goroutines of the scenario are blocked for good (the
-// bubble cannot be left any more); it records the failure, writes the result and exits.
-var fatalHook func(sc *Scenario, o *Outcome)
-
+// fatal is called inside the bubble when goroutines of the scenario are blocked for good. The caller
+// returns from the bubble function right afterwards; synctest.Test then panics in the goroutine that
+// called it ("deadlock: ... blocked goroutines remain"), runScenario recovers that, the blocked
+// goroutines are abandoned and the harness goes on with the next scenario: everything recorded so far
+// is kept and later scenarios still get their chance to show failures of other kinds. (Until fix3
+// the process exited here, so a scenario that blocked masked every later one.)
 func (e *env) fatal(sc *Scenario, out *Outcome, what string) {
 	out.Fatal = what
 	e.mu.Lock()
-	out.Viols = append(out.Viols, e.viols...)
+	e.abandon = true
 	e.mu.Unlock()
-	if fatalHook != nil {
-		fatalHook(sc, out)
-	}
-	fmt.Println("C14 harness: goroutines blocked for good:", what)
-	os.Exit(1)
 }
 
 type Outcome struct {
@@ -652,11 +765,49 @@ func runScenario(t *testing.T, sc *Scenario, r *vlib.Rand, maxSteps int) *Outcom
 		b = 0 // a negative bufferSize is read as "no buffer"
 	}
 	e.bound = b + e.reqPar + 1
+	stuckBubble, sv := vlib.Try(func() { e.bubble(t, sc, r, maxSteps, out, gmp) })
+	if stuckBubble {
+		if out.Fatal == "" {
+			out.Fatal = fmt.Sprintf("the bubble could not be left: %v; last observation: %s", sv, e.observe())
+		}
+		e.finalMonitors()
+	}
+	out.Viols = append(out.Viols, e.viols...)
+	out.Stats["items"] = len(e.items)
+	out.Stats["calls"] = len(e.calls)
+	out.Stats["maxGauge"] = e.maxGauge
+	out.Stats["maxInFlight"] = e.maxInFlight
+	out.Stats["results"] = len(e.results)
+	for _, c := range e.calls {
+		if c.res.err != nil {
+			out.Stats["failedCalls"]++
+		}
+	}
+	if e.srcFailed != nil {
+		out.Stats["srcFailed"] = 1
+	}
+	for _, r := range e.results {
+		if r.err == errCons {
+			out.Stats["ctxFailedNext"]++
+		}
+	}
+	return out
+}
+
+// bubble runs the scenario inside a synctest bubble. If e.fatal was called, goroutines stay blocked and
+// synctest.Test panics in the caller (recovered by runScenario).
+func (e *env) bubble(t *testing.T, sc *Scenario, r *vlib.Rand, maxSteps int, out *Outcome, gmp int) {
 	synctest.Test(t, func(t *testing.T) {
 		start := time.Now()
+		e.start = start
 		deadline := start.Add(time.Hour)
-		if sc.Kind == "timed" && sc.ParentCancel > 0 {
-			deadline = start.Add(time.Duration(sc.ParentCancel) * time.Millisecond)
+		if sc.Kind == "timed" {
+			// far beyond the one-hour watchdogs of runTimed, so that the parent's deadline never rescues a
+			// blocked call at the very instant the watchdog looks
+			deadline = start.Add(1000 * time.Hour)
+			if sc.ParentCancel > 0 {
+				deadline = start.Add(time.Duration(sc.ParentCancel) * time.Millisecond)
+			}
 		}
 		parent, cancelParent := context.WithDeadline(context.Background(), deadline)
 		defer cancelParent()
@@ -683,25 +834,40 @@ func runScenario(t *testing.T, sc *Scenario, r *vlib.Rand, maxSteps int) *Outcom
 			e.viol("panic", fmt.Sprintf("the constructor panicked: %v (parallelism %d, bufferSize %d)", val, sc.P, sc.B), map[string]interface{}{"b": sc.B, "p": sc.P})
 			return
 		}
+		if sc.Kind == "timed" && sc.Owner == "map" && st != nil {
+			st = stream.Map(st, func(ctx context.Context, x int) (int, error) { return x, nil })
+		}
+		if sc.Kind == "timed" && sc.Owner == "collect" {
+			e.bound = 1 << 30 // the reducer holds what it has read: "yielded" is not observable per item
+		}
 		cmds := make(chan cmd)
 		var wg sync.WaitGroup
 		wg.Add(1)
 		go e.consumer(cmds, st, it, &wg)
 		defer func() {
 			close(cmds)
-			wg.Wait()
+			e.mu.Lock()
+			ab := e.abandon
+			e.mu.Unlock()
+			if !ab {
+				wg.Wait()
+			}
 		}()
 		if sc.Kind == "timed" {
 			e.notify = make(chan struct{}, 1)
-			e.runTimed(sc, cmds, out)
+			e.runTimed(sc, cmds, out, st)
 			return
 		}
 		synctest.Wait()
-		out.Lines = append(out.Lines, fmt.Sprintf("init %d %d %d", sc.P, sc.B, gmp), "obs "+e.observe())
+		initLine := fmt.Sprintf("init %d %d %d", sc.P, sc.B, gmp)
+		if sc.SlowClose && sc.Variant == "stream" {
+			initLine += " slow" // the source's Close is an action of the environment, not an internal step
+		}
+		out.Lines = append(out.Lines, initLine, "obs "+e.observe())
 		e.quiescentMonitors()
 		apply := func(s Step) bool {
 			e.mu.Lock()
-			cons, gate, closed := e.cons, e.srcGate, e.closedRet
+			cons, gate, closed, cgate := e.cons, e.srcGate, e.closedRet, e.srcCloseGate
 			var target *fcall
 			for _, c := range e.calls {
 				if !c.ended && c.idx == s.I {
@@ -774,6 +940,12 @@ func runScenario(t *testing.T, sc *Scenario, r *vlib.Rand, maxSteps int) *Outcom
 				}
 				gate <- gateRes{err: &srcErr{s.V}}
 				out.Lines = append(out.Lines, fmt.Sprintf("src err %d", s.V))
+			case "sclose":
+				if cgate == nil {
+					return false
+				}
+				cgate <- struct{}{}
+				out.Lines = append(out.Lines, "src closed")
 			case "fok":
 				if target == nil {
 					return false
@@ -814,7 +986,7 @@ func runScenario(t *testing.T, sc *Scenario, r *vlib.Rand, maxSteps int) *Outcom
 		// wind down: stream: Close, then release whatever is still gated; iterator: drive to the end
 		for n := 0; n < 400; n++ {
 			e.mu.Lock()
-			cons, gate, closed := e.cons, e.srcGate, e.closedRet
+			cons, gate, closed, cgate := e.cons, e.srcGate, e.closedRet, e.srcCloseGate
 			o := e.outstandingF()
 			nitems := len(e.items)
 			last := error(nil)
@@ -827,6 +999,8 @@ func runScenario(t *testing.T, sc *Scenario, r *vlib.Rand, maxSteps int) *Outcom
 			switch {
 			case sc.Variant == "stream" && cons == "idle" && !closed:
 				s = Step{Op: "close"}
+			case cgate != nil:
+				s = Step{Op: "sclose"}
 			case sc.Variant == "stream" && cons == "next" && len(o) == 0 && gate == nil && cur != nil && cur.Err() == nil:
 				s = Step{Op: "expire"} // a stuck Next (already reported): get it out of the way
 			case len(o) > 0:
@@ -849,34 +1023,13 @@ func runScenario(t *testing.T, sc *Scenario, r *vlib.Rand, maxSteps int) *Outcom
 			}
 		}
 		e.mu.Lock()
-		stuck := (sc.Variant == "stream" && !e.closedRet) || e.cons == "next" || e.gauge > 0 || e.srcInCall > 0
+		stuck := (sc.Variant == "stream" && !e.closedRet) || e.cons == "next" || e.gauge > 0 || e.srcInCall > 0 || e.srcInClose > 0
 		e.mu.Unlock()
 		e.finalMonitors()
 		if stuck {
 			e.fatal(sc, out, "the scenario could not be wound down (a call is blocked for good): "+e.observe())
 		}
 	})
-	out.Viols = append(out.Viols, e.viols...)
-	out.Stats["items"] = len(e.items)
-	out.Stats["calls"] = len(e.calls)
-	out.Stats["maxGauge"] = e.maxGauge
-	out.Stats["maxInFlight"] = e.maxInFlight
-	out.Stats["results"] = len(e.results)
-	for _, c := range e.calls {
-		if c.res.err != nil {
-			out.Stats["failedCalls"]++
-		}
-	}
-	if e.srcFailed != nil {
-		out.Stats["srcFailed"] = 1
-	}
-	// reordering: a result arrived for a later item while an earlier one was still running
-	for _, r := range e.results {
-		if r.err == errCons {
-			out.Stats["ctxFailedNext"]++
-		}
-	}
-	return out
 }
 
 // choose picks the next script action among those applicable now.
@@ -898,6 +1051,9 @@ func (e *env) choose(r *vlib.Rand) (Step, bool) {
 		if sc.Variant == "stream" {
 			cs = append(cs, cand{Step{Op: "serr", V: len(e.items) + 1}, 1})
 		}
+	}
+	if e.srcCloseGate != nil {
+		cs = append(cs, cand{Step{Op: "sclose"}, 6})
 	}
 	for i, c := range o {
 		w := 3
@@ -939,7 +1095,41 @@ func (e *env) choose(r *vlib.Rand) (Step, bool) {
 }
 
 // runTimed: the consumer loop of a timed scenario (runs in the bubble's main goroutine).
-func (e *env) runTimed(sc *Scenario, cmds chan cmd, out *Outcome) {
+func (e *env) runTimed(sc *Scenario, cmds chan cmd, out *Outcome, st stream.Stream[int]) {
+	if sc.Variant == "stream" && sc.Owner == "collect" {
+		e.mu.Lock()
+		e.cons = "next"
+		e.mu.Unlock()
+		cmds <- cmd{op: "collect"}
+		hour := time.NewTimer(time.Hour)
+		select {
+		case <-e.notify:
+			hour.Stop()
+		case <-hour.C:
+			e.mu.Lock()
+			e.viol("deadlock", "stream.Collect over the MapStream did not return within an hour of virtual time (every latency is a few milliseconds)", map[string]interface{}{"ctx": "live"})
+			if failed := e.failedNow(); failed != "" && len(e.outstandingF()) == 0 && e.srcInClose == 0 {
+				what := fmt.Sprintf("%s, no call of f is outstanding, yet the reducer has not returned the error within an hour of virtual time (source idle: %v)", failed, e.srcInCall > 0)
+				e.viol("error-silent", what, map[string]interface{}{"ctx": "live", "source_idle": e.srcInCall > 0})
+				e.viol("c08-silence", what, map[string]interface{}{"ctx": "live", "source_idle": e.srcInCall > 0})
+			}
+			e.rescued = true
+			e.mu.Unlock()
+			go st.Close()
+			rescue := time.NewTimer(time.Hour)
+			select {
+			case <-e.notify:
+				rescue.Stop()
+			case <-rescue.C:
+				e.fatal(sc, out, "stream.Collect blocked for good in a timed scenario")
+				return
+			}
+		}
+		time.Sleep(time.Duration(sc.LatMax*50+sc.SrcCloseLat+10) * time.Millisecond)
+		synctest.Wait()
+		e.finalMonitors()
+		return
+	}
 	want := sc.CloseAfter - 1
 	done := false
 	for guard := 0; !done && guard < 4*sc.N+64; guard++ {
@@ -973,8 +1163,33 @@ func (e *env) runTimed(sc *Scenario, cmds chan cmd, out *Outcome) {
 		case <-hour.C:
 			e.mu.Lock()
 			e.viol("deadlock", "Next did not return within an hour of virtual time (every latency is a few milliseconds)", map[string]interface{}{"ctx": "live"})
+			if failed := e.failedNow(); failed != "" && len(e.outstandingF()) == 0 && e.srcInClose == 0 {
+				what := fmt.Sprintf("%s, no call of f is outstanding, yet Next has not reported the error within an hour of virtual time (source idle: %v)", failed, e.srcInCall > 0)
+				e.viol("error-silent", what, map[string]interface{}{"ctx": "live", "source_idle": e.srcInCall > 0})
+				e.viol("c08-silence", what, map[string]interface{}{"ctx": "live", "source_idle": e.srcInCall > 0})
+			}
 			e.mu.Unlock()
+			// The violation is recorded. Try to get the stuck Next out of the way by closing the stream from
+			// here (outside the stream protocol, only to leave the bubble); if that does not help either,
+			// the goroutines are blocked for good.
+			if st != nil {
+				e.mu.Lock()
+				e.rescued = true
+				e.mu.Unlock()
+				go st.Close()
+				rescue := time.NewTimer(time.Hour)
+				select {
+				case <-e.notify:
+					rescue.Stop()
+					time.Sleep(time.Duration(sc.LatMax*50+sc.SrcCloseLat+10) * time.Millisecond)
+					synctest.Wait()
+					e.finalMonitors()
+					return
+				case <-rescue.C:
+				}
+			}
 			e.fatal(sc, out, "Next blocked for good in a timed scenario")
+			return
 		}
 		if tm != nil {
 			tm.Stop()
@@ -1004,9 +1219,10 @@ func (e *env) runTimed(sc *Scenario, cmds chan cmd, out *Outcome) {
 			e.viol("close-stuck", "Close did not return within an hour of virtual time", nil)
 			e.mu.Unlock()
 			e.fatal(sc, out, "Close blocked for good in a timed scenario")
+			return
 		}
 		// a call of f starting after Close returned would show up now
-		time.Sleep(time.Duration(sc.LatMax*50+10) * time.Millisecond)
+		time.Sleep(time.Duration(sc.LatMax*50+sc.SrcCloseLat+10) * time.Millisecond)
 	}
 	synctest.Wait()
 	e.finalMonitors()
@@ -1023,7 +1239,73 @@ func genScript(r *vlib.Rand) *Scenario {
 	if sc.P <= 0 {
 		sc.Gmp = r.Range(1, 3)
 	}
+	if sc.Variant == "stream" && r.Chance(1, 3) {
+		sc.SlowClose = true
+	}
 	return sc
+}
+
+// directed: script scenarios for two situations that random scripts reach only by luck.
+//
+//	(a) a call of f fails while the source is idle (gated in Next, nothing more to release, returns only
+//	    when its context is done): with a Next pending before the failure, with the Next issued after it,
+//	    and with a second call of f still running at the time of the failure;
+//	(b) Close while the source's Close is slow (gated): after 0..2 results, with and without a call of f
+//	    in progress, the source's Close released before / after that call.
+func directed() []Scenario {
+	var out []Scenario
+	for _, p := range []int{1, 2, 3} {
+		for _, b := range []int{0, 2} {
+			for k := 0; k <= 2; k++ {
+				for mode := 0; mode < 3; mode++ {
+					if mode == 2 && p == 1 {
+						continue
+					}
+					sc := Scenario{Kind: "script", Variant: "stream", P: p, B: b, SlowClose: b == 2 && mode == 0}
+					var st []Step
+					for i := 0; i < k; i++ {
+						st = append(st, Step{Op: "item", V: 1000 + i}, Step{Op: "fok", I: i, V: 100 + i}, Step{Op: "next"})
+					}
+					st = append(st, Step{Op: "item", V: 1000 + k})
+					switch mode {
+					case 0:
+						st = append(st, Step{Op: "next"}, Step{Op: "ferr", I: k, V: k + 1})
+					case 1:
+						st = append(st, Step{Op: "ferr", I: k, V: k + 1}, Step{Op: "next"})
+					case 2:
+						st = append(st, Step{Op: "item", V: 1001 + k}, Step{Op: "next"}, Step{Op: "ferr", I: k, V: k + 1},
+							Step{Op: "fok", I: k + 1, V: 101 + k})
+					}
+					sc.Steps = st
+					out = append(out, sc)
+				}
+			}
+		}
+	}
+	for _, p := range []int{1, 2} {
+		for _, b := range []int{0, 3} {
+			for j := 0; j <= 2; j++ {
+				for mode := 0; mode < 3; mode++ {
+					sc := Scenario{Kind: "script", Variant: "stream", P: p, B: b, SlowClose: true}
+					var st []Step
+					for i := 0; i < j; i++ {
+						st = append(st, Step{Op: "item", V: 1000 + i}, Step{Op: "fok", I: i, V: 100 + i}, Step{Op: "next"})
+					}
+					switch mode {
+					case 0: // the source is in Next, nothing of f running
+						st = append(st, Step{Op: "close"}, Step{Op: "sclose"})
+					case 1: // a call of f in progress, it returns before the source's Close does
+						st = append(st, Step{Op: "item", V: 1000 + j}, Step{Op: "close"}, Step{Op: "fok", I: j, V: 100 + j}, Step{Op: "sclose"})
+					case 2: // ... after the source's Close
+						st = append(st, Step{Op: "item", V: 1000 + j}, Step{Op: "close"}, Step{Op: "sclose"}, Step{Op: "fok", I: j, V: 100 + j})
+					}
+					sc.Steps = st
+					out = append(out, sc)
+				}
+			}
+		}
+	}
+	return out
 }
 
 func genTimed(r *vlib.Rand, big bool) *Scenario {
@@ -1064,6 +1346,23 @@ func genTimed(r *vlib.Rand, big bool) *Scenario {
 			if r.Chance(1, 10) {
 				sc.ParentCancel = 1 + r.Intn(sc.LatMax*4+3)
 			}
+			// an idle source after its items: only where the run ends without the source's help (a failure,
+			// an early Close, the parent's deadline)
+			if (len(sc.FailF) > 0 || sc.SrcErrAt > 0 || sc.CloseAfter > 0 || sc.ParentCancel > 0) && r.Chance(1, 3) {
+				sc.SrcIdle = true
+			}
+		}
+		if r.Chance(1, 2) {
+			sc.SrcCloseLat = []int{1, 3, 20}[r.Intn(3)]
+		}
+		switch r.Intn(8) {
+		case 0:
+			sc.Owner = "map"
+		case 1:
+			if !sc.SrcIdle || len(sc.FailF) > 0 || sc.SrcErrAt > 0 || sc.ParentCancel > 0 {
+				sc.Owner = "collect" // (an idle source without a failure would keep the reducer waiting for ever)
+				sc.CloseAfter, sc.ConsTimeout, sc.ConsPace = 0, 0, 0
+			}
 		}
 	}
 	return sc
@@ -1099,6 +1398,21 @@ func (ms models) of(sc *Scenario) *vlib.Model {
 	return ms.stream
 }
 
+// Bookkeeping against masking. The harness serves C14 and, through the prefix filters of
+// checks/C08.json / C09.json, the `c08-` / `c09-` clauses: every kind is recorded (and shrunk) on its
+// own, at most kindCap times with different parameters, so that a flood of one kind cannot fill the
+// result's failure list (vlib keeps 50) before a kind of another prefix class shows up; a scenario that
+// blocks for good no longer ends the run (see env.fatal) until maxFatal of them have been abandoned.
+const (
+	kindCap  = 2
+	maxFatal = 40
+)
+
+var (
+	kindSeen = map[string]int{}
+	nFatal   int
+)
+
 func check(t *testing.T, sc *Scenario, r *vlib.Rand, ms models, res *vlib.Result, env vlib.Env) *Outcome {
 	var fork *vlib.Rand
 	if r != nil {
@@ -1108,7 +1422,19 @@ func check(t *testing.T, sc *Scenario, r *vlib.Rand, ms models, res *vlib.Result
 	if sc.Kind == "script" {
 		sc.Steps = o.Applied
 	}
+	if o.Fatal != "" {
+		nFatal++
+		res.Count("scenarios-blocked-for-good")
+		if kindSeen["blocked-for-good"] < kindCap {
+			kindSeen["blocked-for-good"]++
+			res.Fail(vlib.Failure{Source: "monitor", Kind: "blocked-for-good", Params: map[string]interface{}{"variant": sc.Variant, "kind": sc.Kind}, What: o.Fatal, Case: sc})
+		}
+	}
 	for _, v := range o.Viols {
+		if kindSeen[v.Kind] >= kindCap {
+			continue
+		}
+		kindSeen[v.Kind]++
 		small := sc
 		if sc.Kind == "script" && len(sc.Steps) > 1 && o.Fatal == "" {
 			steps := vlib.Shrink(sc.Steps, func(c []Step) bool {
@@ -1200,15 +1526,7 @@ func TestVerif(t *testing.T) {
 		return
 	}
 
-	fatalHook = func(sc *Scenario, o *Outcome) {
-		for _, v := range o.Viols {
-			res.Fail(vlib.Failure{Source: "monitor", Kind: v.Kind, Params: v.Params, What: v.What, Case: sc})
-		}
-		res.Fail(vlib.Failure{Source: "monitor", Kind: "blocked-for-good", Params: map[string]interface{}{"variant": sc.Variant}, What: o.Fatal, Case: sc})
-		res.Write(env.Out)
-		fmt.Println("C14 harness: goroutines blocked for good; result written:", o.Fatal)
-		os.Exit(1)
-	}
+	defer res.Write(env.Out) // also when the run is cut short below
 	for _, f := range vlib.CorpusFiles(env.Corpus, ".json") {
 		b, err := os.ReadFile(f)
 		if err != nil {
@@ -1217,6 +1535,9 @@ func TestVerif(t *testing.T) {
 		var sc Scenario
 		if json.Unmarshal(b, &sc) != nil {
 			t.Fatalf("bad corpus file %s", f)
+		}
+		if nFatal >= maxFatal {
+			break
 		}
 		res.Count("corpus")
 		o := check(t, &sc, nil, ms, res, env)
@@ -1243,18 +1564,55 @@ func TestVerif(t *testing.T) {
 					sc := base
 					sc.CloseAfter = c
 					list = append(list, sc)
+					sc.SrcCloseLat = 3 // the source's Close takes virtual time
+					list = append(list, sc)
+					sc.SrcIdle = true
+					list = append(list, sc)
+					sc.Owner = "map" // Close through a wrapper that forwards it
+					list = append(list, sc)
+				}
+				for _, own := range []string{"collect"} { // a reducer owns the stream: fault-free, failing source, failing f
+					sc := base
+					sc.Owner, sc.ConsTimeout, sc.SrcCloseLat = own, 0, 3
+					list = append(list, sc)
+					sc.SrcErrAt = 3
+					list = append(list, sc)
+					sc.SrcErrAt, sc.FailF, sc.SrcIdle = 0, []int{2}, true
+					list = append(list, sc)
+				}
+				for k := 0; k < 4; k++ { // f fails for item k while the source has nothing more to yield
+					sc := base
+					sc.FailF = []int{k}
+					sc.SrcIdle = true
+					sc.N = k + 1
+					sc.SrcCloseLat = 2
+					list = append(list, sc)
+					sc.ConsTimeout = 0
+					list = append(list, sc)
 				}
 				it := base
 				it.Variant = "iter"
 				it.ConsTimeout = 0
 				list = append(list, it)
 				for i := range list {
+					if nFatal >= maxFatal {
+						break
+					}
 					res.Count("sweep")
 					o := check(t, &list[i], nil, ms, res, env)
 					res.Case(list[i].key(), nontrivial(&list[i], o), nil)
 				}
 			}
 		}
+	}
+	dir := directed()
+	for i := range dir {
+		if nFatal >= maxFatal {
+			break
+		}
+		res.Count("directed")
+		o := check(t, &dir[i], nil, ms, res, env)
+		res.Case(dir[i].key(), nontrivial(&dir[i], o), nil)
 	}
 	r := vlib.NewRand(env.Seed)
 	deadline := env.Deadline()
@@ -1263,7 +1621,7 @@ func TestVerif(t *testing.T) {
 	if big {
 		maxCases = 300000
 	}
-	for i := 0; i < maxCases && time.Now().Before(deadline); i++ {
+	for i := 0; i < maxCases && time.Now().Before(deadline) && nFatal < maxFatal; i++ {
 		var sc *Scenario
 		var rr *vlib.Rand
 		if i%3 != 2 {
@@ -1304,11 +1662,19 @@ func TestVerif(t *testing.T) {
 		if sc.B < sc.P {
 			res.Count("bufferSize<parallelism")
 		}
+		if sc.SlowClose || sc.SrcCloseLat > 0 {
+			res.Count("source-Close-not-instantaneous")
+		}
+		if sc.SrcIdle {
+			res.Count("timed-idle-source")
+		}
+		if sc.Owner != "" {
+			res.Count("owner-" + sc.Owner)
+		}
 		var sample interface{}
 		if len(o.Lines) > 0 && len(o.Lines) < 16 {
 			sample = map[string]interface{}{"scenario": sc, "trace": o.Lines}
 		}
 		res.Case(sc.key(), nontrivial(sc, o), sample)
 	}
-	res.Write(env.Out)
 }
